@@ -6,3 +6,7 @@ package fmt
 // order, so every such loop must be listed here with the reason why nothing observable depends on the order (an
 // empty list states that the package has none; seed C05d added one to math.sum).
 //@ scan[C05.maploops.fmt] C05 maprange fmt:
+
+// C09: every call of Module() builds its module from objects allocated in that call (NewBuiltinsModule writes a
+// back-reference to the module into each builtin it is given; see modules/math).
+//@ pkgcallpre[C09.module.fresh] C09 NewBuiltinsModule: fresh(arg1) && forallA(k, string, haskey(arg1, k) ==> fresh(arg1[k]))
